@@ -174,6 +174,19 @@ for c in req.get("indices", []):
         res.append(err(e))
 out["indices"] = res
 
+# ------------------------------------------------------------------ whole-area Cython resampling (gradient_resampler)
+res = []
+for c in req.get("legacy", []):
+    try:
+        src, dst = area(c["src"], "s"), area(c["dst"], "d")
+        d = arr(c["data"], tuple(c["src"]["shape"]))
+        res.append({"nn": flat(G.gradient_resampler(d, src, dst, method="nn")),
+                    "bil": flat(G.gradient_resampler(d, src, dst, method="bilinear")),
+                    "bil3d": flat(G.gradient_resampler(np.stack([d, 2 * d + 1]), src, dst, method="bilinear"))})
+    except Exception as e:  # noqa: BLE001
+        res.append(err(e))
+out["legacy"] = res
+
 # ------------------------------------------------------------------ the resampler, per PYTROLL_CHUNK_SIZE (this process)
 trace = None
 blocks_seen = None
